@@ -145,6 +145,36 @@ func driveSchnorr(c *ctx) {
 			verify(pk, msg, append(append([]byte{}, rr...), be32(s2)[:]...), false)
 		}
 
+		// key objects are immutable: scribble over everything handed out or passed in, then use the key again
+		{
+			var a32 [32]byte
+			copy(a32[:], auxs[ki%2])
+			m := []byte("immutability probe")
+			sig1, _ := bitcoin.VerifSignSchnorr(&a32, sk, m)
+			b1, sb1, p1 := hx(pk.Bytes()), hx(sk.Bytes()), hx(pk.Point().UncompressedBytes())
+			for _, sl := range [][]byte{pk.Bytes(), sk.Bytes(), sk.PublicKey().Bytes()} {
+				for i := range sl {
+					sl[i] ^= 0xa5
+				}
+			}
+			sc := sk.Scalar()
+			sc.Add(sc, sc)
+			pt := pk.Point()
+			pt.Double(pt)
+			in := append([]byte{}, pk.Bytes()...)
+			pk2, err := bitcoin.NewSchnorrPublicKey(in)
+			for i := range in {
+				in[i] = 0
+			}
+			src := sk.PublicKey().Point()
+			pk3, _ := bitcoin.NewSchnorrPublicKeyFromPoint(src)
+			src.Add(src, src)
+			sig2, _ := bitcoin.VerifSignSchnorr(&a32, sk, m)
+			ok2 := err == nil && pk2.Verify(m, sig1) && hx(pk2.Bytes()) == b1 && pk3 != nil && hx(pk3.Bytes()) == b1 && pk3.Verify(m, sig1)
+			c.E("schnorr.Immutable", "d", h32(d), "bytes1", b1, "bytes2", hx(pk.Bytes()), "sk1", sb1, "sk2", hx(sk.Bytes()), "point1", p1,
+				"point2", hx(pk.Point().UncompressedBytes()), "sig1", hx(sig1), "sig2", hx(sig2), "copies_ok", ok2, "verify_after", pk.Verify(m, sig1))
+		}
+
 		// key derivations
 		ek := privFrom(d)
 		spk := bitcoin.NewSchnorrPublicKeyFromECDSA(ek.PublicKey())
